@@ -251,7 +251,7 @@ def run(ctx, obl):
                 "non-trivial = distinct declaration with at least two constants outside Out" +
                 ("; thorough adds every sequence of at most four specs over the six spec forms (%d blocks)" % nex if nex else ""))
     res.exhaustive = bool(nex)
-    res.assumptions = ["int and uint are 64 bit wide (amd64/arm64)", "go/types constant values are an input of the model (cross-checked against the compiled package by the oracle)",
+    res.assumptions = ["int and uint are 64 bit wide: the model gives the kinds `int`/`uint` 64 bits and the check runs on amd64/arm64; on a 32-bit GOARCH (386, arm) their range is 32 bits (an `int` enum with a constant above MaxInt32 would not even compile there) - that platform is neither modelled nor exercised", "go/types constant values are an input of the model (cross-checked against the compiled package by the oracle)",
                        "fmt %d prints the decimal form", "identifiers do not collide with the names the template introduces"]
     return res
 
